@@ -54,6 +54,9 @@ FIXED = {
     "expr": {"<start>": ["<e>"], "<e>": ["<t>+<e>", "<t>"], "<t>": ["<f>*<t>", "<f>"],
              "<f>": ["(<e>)", "<d>", "-<f>"], "<d>": ["0", "1", "<d><d>"]},
     "nullable-start": {"<start>": ["", "<a><start>"], "<a>": ["a", ""]},
+    # several recursive alternatives placing the nonterminal at different positions (generalize_subtree)
+    "multirec": {"<start>": ["<e>"], "<e>": ["<e>+<t>", "(<e>)", "<t>*<e>", "<e><e>", "<t>"],
+                 "<t>": ["a", "<t><t>", "[<e>]", "b<t>", "<t>c"]},
 }
 
 
@@ -249,7 +252,7 @@ OK_DEF = (
     "| 6 => cost_okb G (cost_of (nth gi CTS [])) (ecost_of (nth gi ETS [])) "
     "| _ => uses_definedb G && nonempty_altsb G && keys_ntb G "
     "end")
-N_SHARDS = 8
+N_SHARDS = 14
 KIND = {"expand": 0, "mutate": 1, "replace": 2, "swap": 3, "generalize": 4, "swap-nothing": 5, "cost": 6, "grammar": 7}
 
 
@@ -303,23 +306,29 @@ def run(run):
     proof_ok = run.proof_stage()
 
     findings = {e["key"]: e for e in load_findings()}
-    # every recorded witness is replayed on the implementation on every run
+    # every recorded witness is replayed on the implementation on every run:
+    #  open entry  -> KNOWN-FINDING line iff the defect is still present;
+    #  fixed entry -> corpus case: the call must return and its output must be accepted in Coq like any
+    #                 generated case (a recurrence is a VIOLATION, never a KNOWN-FINDING line)
+    corpus = []
     for key, e in findings.items():
+        if e["status"] != "open":
+            corpus.append((key, e["witness"]))
+            continue
         try:
             present = replay_finding(e)
         except Exception as ex:  # noqa
             present = False
             run.cov.setdefault("finding_replay_errors", []).append(f"{key}: {type(ex).__name__}: {ex}")
-        if present and e["status"] == "open":
+        if present:
             run.known(e["what"])
-        elif present:
-            run.violation({"kind": "regression of a fixed defect", "finding": key, "witness": e["witness"],
-                           "how_to_replay": "./check C12 --replay <this file>"})
+    run.cov["corpus_cases"] = [k for k, _ in corpus]
 
-    n_gram = 60 if thorough else 22
-    per_exp = 70 if thorough else 46
-    per_mut = 70 if thorough else 46
-    grammars = [(name, g) for name, g in FIXED.items()]
+    n_gram = 60 if thorough else 20
+    per_exp = 70 if thorough else 44
+    per_mut = 70 if thorough else 44
+    grammars = [("corpus:" + key, w["grammar"]) for key, w in corpus] + [(name, g) for name, g in FIXED.items()]
+    n_gram += len(corpus)
     while len(grammars) < n_gram:
         prof = PROFILES[len(grammars) % len(PROFILES)]
         grammars.append((prof, rand_grammar(rng, prof)))
@@ -373,6 +382,33 @@ def run(run):
             sizes_in.append(n_nodes(t))
             sizes_out.append(n_nodes(out))
 
+        # ---- corpus case of a fixed finding (old witness; must pass) ----
+        if prof.startswith("corpus:"):
+            key, w = corpus[gi]
+            t0, op0, seed0 = tree_from_json(w["tree"]), w["op"], w.get("pyseed", 0)
+            for rep in range(3):
+                random.seed(seed0 + rep)
+                if op0 == "expand":
+                    res = call_impl(lambda: GrammarCoverageFuzzer(g).expand_tree(t0))
+                else:
+                    res = call_impl(lambda: getattr(Mutator(g), {"mutate": "mutate", "replace": "replace_subtree_randomly",
+                                                                 "swap": "swap_subtrees", "generalize": "generalize_subtree"}[op0])(t0))
+                run.count(("corpus", key, rep), True)
+                if res[0] == "raise":
+                    unknown_exc.append({"op": op0, "grammar": g, "tree": w["tree"], "pyseed": seed0 + rep,
+                                        "exception": f"{type(res[1]).__name__}: {res[1]}"[:300],
+                                        "finding_class": key, "regression_of_fixed_finding": key, "n": n_nodes(t0)})
+                    break
+                v = res[1]
+                if op0 in ("expand", "mutate"):
+                    add(op0, t0, v, seed0 + rep)
+                else:
+                    out = v.value_or(None)
+                    if out is not None:
+                        add(op0, t0, out, seed0 + rep)
+                    elif op0 == "swap":
+                        add("swap-nothing", t0, t0, seed0 + rep)
+
         # ---- expansions ----
         shared_fuzzer = call_impl(lambda: GrammarCoverageFuzzer(g))
         for ci in range(per_exp):
@@ -384,7 +420,7 @@ def run(run):
             elif r < 0.16:
                 t = T(rng.choice(list(cg)), None)
             else:
-                base = rand_derivation(cg, depths, rng, "<start>" if rng.random() < 0.8 else rng.choice(list(cg)),
+                base = rand_derivation(cg, depths, rng, "<start>" if rng.random() < 0.7 else rng.choice(list(cg)),
                                        rng.randint(1, 5))
                 nts = [p for p, s in base.paths() if is_nt(s.value)]
                 t = prune(base, set(rng.sample(nts, min(len(nts), rng.randint(1, 3)))), rng)
@@ -416,7 +452,7 @@ def run(run):
             for ci in range(per_mut):
                 if len(unknown_exc) >= MAX_UNKNOWN:
                     break
-                t = rand_derivation(cg, depths, rng, "<start>" if rng.random() < 0.85 else rng.choice(list(cg)),
+                t = rand_derivation(cg, depths, rng, "<start>" if rng.random() < 0.7 else rng.choice(list(cg)),
                                     rng.randint(1, 4))
                 if n_nodes(t) > 30:
                     continue
